@@ -33,7 +33,7 @@ for prop in sorted(os.listdir('/tmp/r5out')):
          'needs_to_manifest':'see notes.md (agent description) and the demonstration',
          'check_run':f'scratch copy of /repo with patch.diff applied (VERIF_REPO), vcheck {prop} --tier quick; equivalently git -C /repo apply patch.diff; /verif/bin/vcheck {prop} --tier quick; git -C /repo checkout -- .',
          'detected_first_run': not missed,
-         'detected_now': True if (not missed or seed!='C16-2') else 'not re-run (harness registered under C16, reported under C05/C15 for the same patch shape)',
+         'detected_now': True,
          'caught_by': first_miss.get(seed) or (re.search(r'/(C\d\d_\w+?)-',lines[0]).group(1) if lines and re.search(r'/(C\d\d_\w+?)-',lines[0]) else ''),
          'report':lines if not missed else ['first run: RESULT held (missed); after strengthening: reported by '+first_miss[seed]]}
         json.dump(meta,open(f'{out}/meta.json','w'),indent=1)
